@@ -1,5 +1,5 @@
 (* C07 - a refused transfer moves no data, leaks nothing and leaves the session usable. *)
-From LibFtp Require Import Bytes Decimal Reply Endpoint DataConn Client Client_Proofs Ascii DataConn_Proofs Login_Proofs Transfer_Proofs.
+From LibFtp Require Import Bytes Decimal Reply Endpoint Ascii DataConn DataConn_Proofs Client Client_Proofs Login_Proofs Transfer_Proofs Transfer_More.
 Local Open Scope N_scope.
 
 (* Refusal at the set-up command in passive mode (EPSV or PASV answered by any negative reply other than 421), for
@@ -64,3 +64,34 @@ Example C07_example :
   os = [OReturn (RvReplies [mkReply 220 [50;50;48]]); OReturn (RvReplies [mkReply 550 [53;53;48]]);
         OReturn (RvReply (mkReply 200 [50;48;48]))] /\ io_events (w_trace w) = [] /\ held w = 1%nat.
 Proof. vm_compute. auto. Qed.
+
+(* EPRT / PORT refused: the reply is returned, nothing moved, the listener is closed, the session is in step *)
+Theorem C07_refused_at_active_setup : forall w verb path io k_ok r1 rest x1 line,
+  insync w (r1 :: rest) -> w_data w = None ->
+  c_mode (w_cfg w) = Active -> has_crlf path = false -> adv_cmd w = Some line ->
+  simple_reaction r1 x1 -> is_negative x1 = true ->
+  exists w',
+    run (CheckArg path (Scope (create_data_connection verb (Some path) [] k_ok (fun acc => Ret (RvReplies acc))))) (set_io w io)
+      = (OReturn (RvReplies [x1]), w') /\
+    insync w' rest /\ w_data w' = None /\ w_cfg w' = w_cfg w /\
+    io_events (skipn (length (w_trace w)) (w_trace w')) = [] /\
+    wire_events (skipn (length (w_trace w)) (w_trace w')) = [WLine line; WReply x1] /\
+    data_events (skipn (length (w_trace w)) (w_trace w')) = [DNewObj; DListen; DAccClose].
+Proof. exact refused_at_active_setup. Qed.
+Print Assumptions C07_refused_at_active_setup.
+
+(* the transfer command refused in the active modes: nothing is accepted, nothing moved, the listener is closed *)
+Theorem C07_refused_at_transfer_command_active : forall w verb path io k_ok r1 r2 rest x1 x2 line,
+  insync w (r1 :: r2 :: rest) -> w_data w = None ->
+  c_mode (w_cfg w) = Active -> has_crlf path = false -> adv_cmd w = Some line ->
+  simple_reaction r1 x1 -> is_negative x1 = false ->
+  simple_reaction r2 x2 -> is_negative x2 = true ->
+  exists w',
+    run (CheckArg path (Scope (create_data_connection verb (Some path) [] k_ok (fun acc => Ret (RvReplies acc))))) (set_io w io)
+      = (OReturn (RvReplies [x1; x2]), w') /\
+    insync w' rest /\ w_data w' = None /\ w_cfg w' = w_cfg w /\
+    io_events (skipn (length (w_trace w)) (w_trace w')) = [] /\
+    wire_events (skipn (length (w_trace w)) (w_trace w')) = [WLine line; WReply x1; WLine (verb ++ SP :: path); WReply x2] /\
+    data_events (skipn (length (w_trace w)) (w_trace w')) = [DNewObj; DListen; DAccClose].
+Proof. exact refused_at_transfer_command_active. Qed.
+Print Assumptions C07_refused_at_transfer_command_active.
